@@ -6,5 +6,9 @@ cd "$(dirname "$0")"
 if ! /venv/bin/python -c "import hypothesis" 2>/dev/null; then
     PIP_NO_INDEX=1 /venv/bin/pip install --no-index --find-links /opt/veriftools/wheels hypothesis
 fi
+# atheris (coverage-guided fuzz facet of C13) goes beside the framework, not into /venv
+if ! PYTHONPATH="$PWD/.deps" /venv/bin/python -c "import atheris" 2>/dev/null; then
+    PIP_NO_INDEX=1 /venv/bin/pip install --no-index --find-links /opt/veriftools/wheels --target "$PWD/.deps" atheris || echo "atheris not installable: the fuzz facet will report itself as unavailable"
+fi
 /venv/bin/python -c "import hypothesis, numpy, pandas, skchange; print('setup ok: hypothesis', hypothesis.__version__, 'skchange from', skchange.__file__)"
 mkdir -p evidence replays/found
